@@ -5,9 +5,11 @@ open Scenic.RegionSampling
 /-- shapes of the generic samplers in src/scenic/core/regions.py -/
 def samplerCfg : SamplerCfg :=
   { interDimOp := .le, interChecksAll := true, unionDimOp := .eq, unionWeight := .size,
-    unionCount := .allRegs, unionAccept := .invCount, diffRejectsInB := true }
+    unionCount := .allRegs, unionAccept := .invCount, unionSelf := .byConstruction, diffRejectsInB := true }
 /-- the membership test of the sampler installed by PointSetRegion.intersect -/
 def ballFilter : BallFilter := .trueContainsPoint
+/-- what that sampler does when the other region has no `circumcircle` -/
+def ballFallback : BallFallback := .allPoints
 /-- SectorRegion._makeCircumcircle -/
 def sectorCircCfg : SectorCircCfg := { thr := 1/2, k := 2, op := .divide }
 /-- circumcircle radius of CircularRegion / RectangularRegion / MeshRegion -/
@@ -15,4 +17,8 @@ def circTable : CircTable := { circle := .radius, rect := .hypotHalves, mesh := 
 /-- z written by each planar uniformPointInner -/
 def zTable : ZTable :=
   { rect := .regionZ, circle := .regionZ, sector := .regionZ, polygon := .regionZ, polyline := .zero }
+/-- PolygonalRegion.uniformPointInner discards candidates that lie outside self.polygons (overshooting triangulation) -/
+def polygonOuterFilter : Bool := true
+/-- the `_trueContainsPoint` of GridRegion / PolygonalRegion and the containsPoint of PolylineRegion -/
+def membership : MembershipTable := { grid := .pointSet, polygon := .zAndFootprint, polyline := .withinTolerance }
 end Scenic.Gen
